@@ -27,7 +27,7 @@ func init() {
 		Cases: func(tier string) int { return tierN(tier, 3000, 60000) + c13TrailCount(tier) },
 		Run:   runC13,
 		Rule: "sequential slice: case = (multihash configuration with small files, key universe, history with a Flush after every mutating call, primary/index GC cycles, restarts); at every quiescent point the on-disk layout is decoded by fsck and the multiset of locations that stopped being current since the previous point (overwritten, removed, relocated) must equal the multiset of entries appended to the freelist file (plus batches captured at the hand-over hook); batches consumed by GC must be dead afterwards and no location is marked twice or while current; " +
-			"non-trivial iff >=3 comparison points and >=2 freelist entries were observed; distinct = hash of (configuration, digests, operations). Concurrent family (a quarter of the last 320/6000 cases, freelist package boundary): 2-6 producers Put 500-2500 unique blocks each while one goroutine loops Flush and one loops ToGC + read + delete of the hand-over file, with delays injected at the hooks between rename and reopen and around the pool swap; after Close the multiset handed over plus the multiset left in the file must equal the multiset produced (no loss, no duplicate, no split entry). Store-level concurrent families (a quarter each of the trailing cases; oracle on the closed store: every batch handed to GC is captured at the hand-over point, and no location may occur twice in captured batches + freelist file + hand-over file, no location the index treats as current may occur there or carry the deleted bit, and every complete unmarked primary record that is not current must occur there): gated windows G18/G18b/G19 (a Put or Remove of key K parked after it read K's old location while a primary GC cycle relocates K's record), G20 (Close while the background collector is parked inside a relocation, then a restart) and C06-style stress runs (clients + flusher + harness-driven or background collectors). Crash family (a quarter of the trailing cases): a history with GC cycles on unflushed state is imaged at every hook point and after every call; on each image fsck resolves the locations a restarted store would treat as current (log replay) and none of them may be on the freelist, in the hand-over file or marked deleted",
+			"non-trivial iff >=3 comparison points and >=2 freelist entries were observed; distinct = hash of (configuration, digests, operations). Concurrent family (a quarter of the last 320/6000 cases, freelist package boundary): 2-6 producers Put 500-2500 unique blocks each while one goroutine loops Flush / Pending+FlushN (the store's commit pattern) and one loops ToGC + read + delete of the hand-over file, with delays injected at the hooks between rename and reopen and around the pool swap; after Close the multiset handed over plus the multiset left in the file must equal the multiset produced (no loss, no duplicate, no split entry). Store-level concurrent families (a quarter each of the trailing cases; oracle on the closed store: every batch handed to GC is captured at the hand-over point, and no location may occur twice in captured batches + freelist file + hand-over file, no location the index treats as current may occur there or carry the deleted bit, and every complete unmarked primary record that is not current must occur there): gated windows G18/G18b/G19 (a Put or Remove of key K parked after it read K's old location while a primary GC cycle relocates K's record), G20 (Close while the background collector is parked inside a relocation, then a restart) and C06-style stress runs (clients + flusher + harness-driven or background collectors). Crash family (a quarter of the trailing cases): a history with GC cycles on unflushed state is imaged at every hook point and after every call; on each image fsck resolves the locations a restarted store would treat as current (log replay) and none of them may be on the freelist, in the hand-over file or marked deleted",
 		Assumptions: []string{
 			"a flush after every mutating call makes each interval's superseded set exact; GC runs only on flushed state here (GC on unflushed state is explored by C04)",
 			"locations are never reused (file numbers only grow in the explored range)",
@@ -159,6 +159,7 @@ func runC13FreelistStress(c run.Ctx) *core.CaseResult {
 			}
 		}(p)
 	}
+	var flushes, partial int64
 	bg.Add(1)
 	go func() {
 		defer bg.Done()
@@ -168,7 +169,18 @@ func runC13FreelistStress(c run.Ctx) *core.CaseResult {
 				return
 			default:
 			}
-			if _, err := fl.Flush(); err != nil {
+			// alternately a complete flush and the store's commit pattern: take Pending, let producers
+			// go on, then flush exactly that many entries
+			var err error
+			if flushes++; flushes%2 == 0 {
+				_, err = fl.Flush()
+			} else {
+				n := fl.Pending()
+				time.Sleep(time.Duration(10+r.IntN(100)) * time.Microsecond)
+				_, err = fl.FlushN(n)
+				partial++
+			}
+			if err != nil {
 				res.Violate("freelist-flush-error", "c13-fl-flush-error", 0, nil, "Flush: %v", err)
 				return
 			}
@@ -255,6 +267,7 @@ func runC13FreelistStress(c run.Ctx) *core.CaseResult {
 	res.Add("freelist_stress_runs", 1)
 	res.Add("freelist_stress_entries_produced", int64(nprod*per))
 	res.Add("freelist_stress_handovers", handovers)
+	res.Add("freelist_stress_partial_flushes", partial)
 	res.Add("freelist_stress_entries_via_handover", handoverEntries)
 	res.Hash = core.HashStrings("flstress", fmt.Sprint(c.Index, nprod, per, handovers))
 	res.NonTrivial = handovers >= 3 && handoverEntries > 0
